@@ -11,7 +11,7 @@ CMP = ("Lt", "Le", "Gt", "Ge", "Eq", "Ne")
 # accessors that return None themselves when the index is outside the receiver's own storage
 CHECKED_ACCESSORS = (
     "core::slice::<impl [T]>::get",
-    "std::iter::Iterator::nth",
+    "core::iter::traits::iterator::Iterator::nth",
 )
 ARR_ACCESSORS_SUFFIX = ("::get", "::get_lazy", "::get_cheap")
 
@@ -202,9 +202,9 @@ def check_method(prog, f):
                         sinks.append((b, "forward", "%s.%s" % (fwd_field, short_path(callee)), t["line"], ("safe", "len() is a pure forward of %s.len(), so the inner array's own bound is this view's bound" % fwd_field)))
                     else:
                         sinks.append((b, "forward", "%s.%s" % (show(recv), short_path(callee)), t["line"], None))
-                elif unres in ("std::ops::Index::index", "std::ops::IndexMut::index_mut"):
+                elif unres in ("core::ops::index::Index::index", "core::ops::index::IndexMut::index_mut"):
                     sinks.append((b, "index", "%s on %s" % (short_path(unres), show(recv)), t["line"], None))
-                elif unres.startswith("std::cmp::"):
+                elif unres.startswith("core::cmp::"):
                     pass
                 else:
                     sinks.append((b, "helper", short_path(callee), t["line"], None))
